@@ -101,24 +101,9 @@ def inverse_ctor(P: Program, c: ClassInfo):
     return inv, rets
 
 
-def run(P: Program, R: Report, tier: str) -> None:
-    R.explanation = (
-        "Structural rules over every primitive (its constructor, _apply and inverse), the group "
-        "inverse, every user-action constructor (paths with nested actions inlined) and the "
-        "history methods; all read from the syntax tree / path summaries of /repo/src."
-    )
-    R.decides += [
-        "each primitive has an inverse that constructs its dual on the same tracks and element, duality is an involution",
-        "prior values are captured before the edit is applied and every captured value is handed to the inverse",
-        "the group inverse inverts sub-edits in reverse order; every sub-edit of a user action is recorded in order",
-        "undo/redo pick the right recorded action and apply its inverse exactly once (R02.2-R02.4)",
-    ]
-    R.not_decided += [
-        "equality of recomputed feature values after inversion (runtime values)",
-        "aliasing of captured mutable values; the documented preconditions of primitives",
-        "cascades from the C05 findings (UpdateTrackIDs restores one scalar lineage id)",
-    ]
-    A = ActionAnalysis(P, loop_iters=1 if tier == "quick" else 2)
+def inverse_duality(P: Program, R: Report, A) -> tuple:
+    """R01.1 - R01.3, R01.5: every primitive has an inverse that builds its dual on the same tracks and element and hands
+    every captured value on.  Shared with C02: the timeline of undo / redo is only as good as the inverses it replays."""
     prims = A.primitives
     base_inverse = P.class_named("Action").methods.get("inverse")
     M: dict[str, str] = {}
@@ -190,6 +175,28 @@ def run(P: Program, R: Report, tier: str) -> None:
         R.check(M.get(y) == x, "R01.2", f"{x}.inverse", P.class_named(x).loc, f"inverse({x}) = {y} and inverse({y}) = {x}",
                 f"inverse({y}) = {M.get(y)}: redo of an undo would apply the wrong kind of edit", via="derived-map")
 
+    return prims, M
+
+
+def run(P: Program, R: Report, tier: str) -> None:
+    R.explanation = (
+        "Structural rules over every primitive (its constructor, _apply and inverse), the group "
+        "inverse, every user-action constructor (paths with nested actions inlined) and the "
+        "history methods; all read from the syntax tree / path summaries of /repo/src."
+    )
+    R.decides += [
+        "each primitive has an inverse that constructs its dual on the same tracks and element, duality is an involution",
+        "prior values are captured before the edit is applied and every captured value is handed to the inverse",
+        "the group inverse inverts sub-edits in reverse order; every sub-edit of a user action is recorded in order",
+        "undo/redo pick the right recorded action and apply its inverse exactly once (R02.2-R02.4)",
+    ]
+    R.not_decided += [
+        "equality of recomputed feature values after inversion (runtime values)",
+        "aliasing of captured mutable values; the documented preconditions of primitives",
+        "cascades from the C05 findings (UpdateTrackIDs restores one scalar lineage id)",
+    ]
+    A = ActionAnalysis(P, loop_iters=1 if tier == "quick" else 2)
+    prims, M = inverse_duality(P, R, A)
     # R01.4 capture before apply / R01.6 registry view
     for c in prims:
         init = A.init_of(c)
@@ -324,7 +331,7 @@ def run(P: Program, R: Report, tier: str) -> None:
     R.floor("R01.8", "construction sites", len(n_sites), 15)
 
     # undo / redo apply the right inverse once, pending redo inverses keep their order
-    c02.history_shape(P, R)
+    c02.history_shape(P, R, pure=False)
     # R01.9 inverse triggers
     from .triggers import inverse_triggers
 
@@ -341,6 +348,11 @@ def run(P: Program, R: Report, tier: str) -> None:
     from .memo import no_stale_memo
 
     no_stale_memo(P, R, "R01.15")
+    # ---- R02.6 (shared): every top-level action is one history step and a nested one none - a stray step makes a later
+    # undo / redo replay half an edit, which is a state this property quantifies over ("after every ... undo or redo")
+    from . import c02 as _c02r
+
+    _c02r.registration(P, R, tier, A=A, facade=False)
 
 
 ATTR_READS = ("get_edge_attr", "get_node_attr", "_get_edge_attr", "_get_node_attr", "get_nodes_attr", "get_edges_attr")
